@@ -816,8 +816,16 @@ def _trig_pair(x):
     for (ax, ay) in apps:
         if ax.eq(zx):
             return ay
+    # parity used constructively: an argument that is the negative of an earlier one reuses its pair
+    # (cos(-x) = cos x, sin(-x) = -sin x), so exp(i x) exp(-i x) reduces with the square rule below
+    nzx = z3.simplify(-zx, som=True, sort_sums=True)
+    for (ax, ay) in apps:
+        if z3.simplify(ax, som=True, sort_sums=True).eq(nzx):
+            return ay[0], c_neg(ay[1])
     fc, fs = ENGINE.func("Cos"), ENGINE.func("Sin")
     c, s = fc(zx), fs(zx)
+    ENGINE.square_rules["@%d" % s.get_id()] = 1 - c * c
+    ENGINE.uf.setdefault("trig_keepalive", []).append((c, s))
     ENGINE.assume(c * c + s * s == 1, "Cos^2+Sin^2=1")
     ENGINE.assume(fc(-zx) == c, "Cos even / Sin odd (instantiated)")
     ENGINE.assume(fs(-zx) == -s)
